@@ -218,6 +218,103 @@ func formatBytes(fr *frame, format string, parts []value) []value {
 	return out
 }
 
+// formatAny is formatBytes for a format that may hold symbolic bytes (program output
+// handed to a Printf-like function as the FORMAT): each symbolic byte is decided to be a
+// '%' or not; a '%' followed by a symbolic byte is "%%" or a bad verb without operands.
+func formatAny(fr *frame, format value, parts []value) []value {
+	switch f := format.(type) {
+	case string:
+		return formatBytes(fr, f, parts)
+	case symStr:
+		e := fr.eng()
+		isByte := func(v value, c byte) bool {
+			switch b := v.(type) {
+			case byte:
+				return b == c
+			case symv:
+				return e.decide(Eq(b.T, konst(b.T.Sort, uint64(c))))
+			}
+			return false
+		}
+		var out []value
+		argi := 0
+		for k := 0; k < len(f.B); k++ {
+			if !isByte(f.B[k], '%') {
+				out = append(out, f.B[k])
+				continue
+			}
+			if k+1 >= len(f.B) {
+				out = append(out, strBytes("%!(NOVERB)")...)
+				break
+			}
+			// a directive made of concrete bytes: format it like formatBytes does
+			j := k + 1
+			conc := true
+			for ; j < len(f.B); j++ {
+				c, ok := f.B[j].(byte)
+				if !ok {
+					conc = false
+					break
+				}
+				if strings.IndexByte("+-# 0123456789.*", c) < 0 {
+					break
+				}
+			}
+			if conc && j < len(f.B) {
+				dir := make([]byte, 0, j-k+1)
+				for _, b := range f.B[k : j+1] {
+					dir = append(dir, b.(byte))
+				}
+				n := strings.Count(string(dir), "*") + 1
+				if dir[len(dir)-1] == '%' {
+					n = 0
+				}
+				lo := argi
+				if lo > len(parts) {
+					lo = len(parts)
+				}
+				rest := parts[lo:]
+				if n < len(rest) {
+					rest = rest[:n]
+				}
+				out = append(out, formatBytes(fr, string(dir), rest)...)
+				argi += n
+				k = j
+				continue
+			}
+			if j >= len(f.B) {
+				unsup("fmt: format ends inside a directive")
+			}
+			if j != k+1 {
+				unsup("fmt: symbolic byte after directive flags")
+			}
+			if isByte(f.B[j], '%') {
+				out = append(out, byte('%'))
+				k = j
+				continue
+			}
+			sb := f.B[j].(symv)
+			flag := TFalse
+			for _, c := range []byte("+-# 0123456789.*") {
+				flag = Or(flag, Eq(sb.T, konst(sb.T.Sort, uint64(c))))
+			}
+			if e.decide(flag) {
+				unsup("fmt: symbolic flag or width in a format")
+			}
+			if argi < len(parts) {
+				unsup("fmt: symbolic verb with operands")
+			}
+			out = append(out, strBytes("%!")...)
+			out = append(out, f.B[j])
+			out = append(out, strBytes("(MISSING)")...)
+			k = j
+		}
+		return out
+	}
+	unsup("fmt: format of type %T", format)
+	return nil
+}
+
 func init() {
 	reg(VHPath+".RunCLI", runCLI)
 	reg("os.ReadFile", func(fr *frame, args []value) value {
@@ -332,7 +429,7 @@ func init() {
 	reg("fmt.Print", func(fr *frame, args []value) value { return fprintTo(fr, stdoutW(fr), args[0].([]value), false) })
 	reg("fmt.Println", func(fr *frame, args []value) value { return fprintTo(fr, stdoutW(fr), args[0].([]value), true) })
 	reg("fmt.Printf", func(fr *frame, args []value) value {
-		return writeTo(fr, stdoutW(fr), formatBytes(fr, args[0].(string), args[1].([]value)))
+		return writeTo(fr, stdoutW(fr), formatAny(fr, args[0], args[1].([]value)))
 	})
 }
 
